@@ -530,7 +530,7 @@ LEVEL_NOTE = {}
 # ---- round 11: the environment a call runs in (DESIGN.md 10.6); appended to the evidence rules, with the counters that prove it happened
 ENV_RULE = {
     'model': ' Every logged operation is entered with a stale errno value chosen by (case, operation); equal keys reach the container through copies that start 0..3 bytes into their block; '
-             'a call that does not return within 60 s of CPU is hang:operation. A twin job repeats the harness at about half the volume against the library compiled -O3 -DNDEBUG (release build).',
+             'a call that does not return within 10 s of CPU is hang:operation. A twin job repeats the harness at about half the volume against the library compiled -O3 -DNDEBUG (release build).',
     'twin': ' A twin job repeats the harness against the library compiled -O3 -DNDEBUG (release build).',
 }
 for _p in ('C01', 'C02', 'C03', 'C04', 'C05', 'C06', 'C07', 'C08', 'C09', 'C10', 'C12'):
